@@ -491,7 +491,10 @@ func superviseShard(id string, cfg propCfg, v variant, bin, tier string, seed ui
 		default:
 			site := fatalSite(headFile(errFile, 20000))
 			k := "fatal:" + site
-			if fr := fatalFrame(headFile(errFile, 20000)); fr != "" {
+			if site == "stack-overflow" {
+				// the frame on top when the stack ran out is arbitrary; the journalled call identifies the case
+				k += ":" + key
+			} else if fr := fatalFrame(headFile(errFile, 20000)); fr != "" {
 				k += ":" + fr
 			} else {
 				k += ":" + key
